@@ -7,7 +7,9 @@ import PlcProofs.Lemmas.Stages
 Model: `PlcModel/Analyze.lean`.  For each documented rule the theorem says that its problem code
 is among the reported codes exactly when some site of the unit violates the rule as documented
 (`code ∈ flatten` = the rule fires; a rule's group list is empty = the rule is silent), for units
-of any size.  The pipeline theorems say when the whole analysis succeeds.
+of any size (`struct_rule` … `stdlib_rule`; `fb_call_rule` with `call_resolved` / `call_unresolved` for the five codes
+of the call rule and the documented order of its checks; `const_init_rule`; `enum_use_rule`) — every one of the eleven
+rules of `stages.rs` has its statement.  The pipeline theorems say when the whole analysis succeeds.
 Sites are given as membership in the declaration list, so every statement is about all
 declarations, all variables and all statements of a unit.
 -/
@@ -156,6 +158,387 @@ theorem stdlib_rule (ds : List ADecl) :
       · simp [hu] at h
   · rintro ⟨d, hd, v, hv, t, hr, hu⟩
     exact ⟨d, hd, v, hv, by simp [hr, hu]⟩
+
+/-! ### the function block call rule (P0006–P0009, P0021), site by site -/
+
+/-- the call `inst(…)` in POU `d` resolves to the function block declaration `callee`: `inst` is a variable of `d`
+that is a function block instance, and its type names a function block of the unit -/
+def Resolves (ds : List ADecl) (d : ADecl) (inst : Nat) (callee : ADecl) : Prop :=
+  ∃ v, d.vars.find? (fun v => v.name == inst && isFbVar ds v) = some v ∧ v.refEdge.bind (findFb ds) = some callee
+
+/-- P0021: the instance does not resolve -/
+theorem call_unresolved (ds : List ADecl) (d : ADecl) (i : Nat) (f : List (Nat × Nat)) (p : List Nat) (o : List (Nat × Nat))
+    (h : ¬ ∃ callee, Resolves ds d i callee) : callCode ds d i f p o = some P0021 := by
+  unfold callCode
+  cases hv : d.vars.find? (fun v => v.name == i && isFbVar ds v) with
+  | none => rfl
+  | some v =>
+    cases hc : v.refEdge.bind (findFb ds) with
+    | none => simp [hc]
+    | some callee => exact absurd ⟨callee, v, hv, hc⟩ h
+
+/-- formal and positional arguments in one call -/
+def CallMixed (f : List (Nat × Nat)) (p : List Nat) : Prop := f ≠ [] ∧ p ≠ []
+/-- the callee has a variable called `n` in a block of one of the classes `cls` -/
+def NamesVar (callee : ADecl) (cls : List VCls) (n : Nat) : Prop := ∃ x ∈ callee.vars, x.cls ∈ cls ∧ x.name = n
+/-- some formal argument names no VAR_INPUT / VAR_IN_OUT variable of the callee -/
+def BadFormal (callee : ADecl) (f : List (Nat × Nat)) : Prop := ∃ a ∈ f, ¬ NamesVar callee [.input, .inout] a.1
+/-- positional arguments, but not as many as the callee has VAR_INPUT variables -/
+def BadCount (callee : ADecl) (p : List Nat) : Prop := p ≠ [] ∧ p.length ≠ (callee.vars.filter (·.cls == .input)).length
+/-- some output assignment names no VAR_OUTPUT variable of the callee -/
+def BadOut (callee : ADecl) (o : List (Nat × Nat)) : Prop := ∃ a ∈ o, ¬ NamesVar callee [.output] a.1
+
+theorem first_of_four (b1 b2 b3 b4 : Bool) (Q1 Q2 Q3 Q4 : Prop)
+    (h1 : b1 = true ↔ Q1) (h2 : b2 = true ↔ Q2) (h3 : b3 = true ↔ Q3) (h4 : b4 = true ↔ Q4) (r : Option Nat)
+    (hr : r = if b1 = true then some P0006 else if b2 = true then some P0007 else if b3 = true then some P0008
+              else if b4 = true then some P0009 else none) :
+    (r = some P0006 ↔ Q1) ∧ (r = some P0007 ↔ ¬ Q1 ∧ Q2) ∧ (r = some P0008 ↔ ¬ Q1 ∧ ¬ Q2 ∧ Q3) ∧
+    (r = some P0009 ↔ ¬ Q1 ∧ ¬ Q2 ∧ ¬ Q3 ∧ Q4) ∧ (r = none ↔ ¬ Q1 ∧ ¬ Q2 ∧ ¬ Q3 ∧ ¬ Q4) := by
+  subst hr
+  cases b1 <;> cases b2 <;> cases b3 <;> cases b4 <;> simp_all [P0006, P0007, P0008, P0009]
+
+/-- the documented order of the checks on a call that resolves: mixing formal and positional arguments (P0006), a formal
+argument that names no input or in-out variable of the callee (P0007), a positional list whose length is not the
+number of inputs (P0008), an output assignment that names no output of the callee (P0009) — the first that applies is
+reported, and nothing is reported exactly when none applies. -/
+theorem call_resolved (ds : List ADecl) (d : ADecl) (i : Nat) (f : List (Nat × Nat)) (p : List Nat) (o : List (Nat × Nat))
+    (callee : ADecl) (h : Resolves ds d i callee) :
+    (callCode ds d i f p o = some P0006 ↔ CallMixed f p) ∧
+    (callCode ds d i f p o = some P0007 ↔ ¬ CallMixed f p ∧ BadFormal callee f) ∧
+    (callCode ds d i f p o = some P0008 ↔ ¬ CallMixed f p ∧ ¬ BadFormal callee f ∧ BadCount callee p) ∧
+    (callCode ds d i f p o = some P0009 ↔ ¬ CallMixed f p ∧ ¬ BadFormal callee f ∧ ¬ BadCount callee p ∧ BadOut callee o) ∧
+    (callCode ds d i f p o = none ↔ ¬ CallMixed f p ∧ ¬ BadFormal callee f ∧ ¬ BadCount callee p ∧ ¬ BadOut callee o) := by
+  obtain ⟨v, hv, hc⟩ := h
+  have hmixed : (!f.isEmpty && !p.isEmpty) = true ↔ CallMixed f p := by
+    simp only [Bool.and_eq_true, Bool.not_eq_true', List.isEmpty_eq_false_iff]; exact Iff.rfl
+  have hformal : (f.any fun a => !((callee.vars.filter fun x => x.cls == .input || x.cls == .inout).any (·.name == a.1))) = true
+      ↔ BadFormal callee f := by
+    simp only [List.any_eq_true, Bool.not_eq_true', List.any_eq_false, List.mem_filter, beq_iff_eq, Bool.or_eq_true,
+      BadFormal, NamesVar, List.mem_cons, List.not_mem_nil, or_false]
+    constructor
+    · rintro ⟨a, ha, hn⟩
+      refine ⟨a, ha, ?_⟩
+      rintro ⟨x, hx, hcls, hname⟩
+      exact hn x ⟨hx, hcls⟩ hname
+    · rintro ⟨a, ha, hn⟩
+      exact ⟨a, ha, fun x hx hname => hn ⟨x, hx.1, hx.2, hname⟩⟩
+  have hcount : (!p.isEmpty && p.length != (callee.vars.filter (·.cls == .input)).length) = true ↔ BadCount callee p := by
+    simp only [Bool.and_eq_true, Bool.not_eq_true', List.isEmpty_eq_false_iff, bne_iff_ne]; exact Iff.rfl
+  have hout : (o.any fun a => !((callee.vars.filter (·.cls == .output)).any (·.name == a.1))) = true ↔ BadOut callee o := by
+    simp only [List.any_eq_true, Bool.not_eq_true', List.any_eq_false, List.mem_filter, beq_iff_eq,
+      BadOut, NamesVar, List.mem_cons, List.not_mem_nil, or_false]
+    constructor
+    · rintro ⟨a, ha, hn⟩
+      refine ⟨a, ha, ?_⟩
+      rintro ⟨x, hx, hcls, hname⟩
+      exact hn x ⟨hx, hcls⟩ hname
+    · rintro ⟨a, ha, hn⟩
+      exact ⟨a, ha, fun x hx hname => hn ⟨x, hx.1, hx.2, hname⟩⟩
+  refine first_of_four _ _ _ _ _ _ _ _ hmixed hformal hcount hout _ ?_
+  unfold callCode
+  simp only [hv, hc]
+
+/-- A call-rule code is reported exactly when some call statement of some POU of the unit gets it. -/
+theorem fb_call_rule (ds : List ADecl) (c : Nat) :
+    c ∈ (ruleFbCall ds).flatten ↔
+      ∃ d ∈ ds, d.isPou = true ∧ ∃ i f p o, AStmt.call i f p o ∈ d.body ∧ callCode ds d i f p o = some c := by
+  simp only [ruleFbCall, mem_grp_flatten, List.mem_flatMap, List.mem_filterMap]
+  constructor
+  · rintro ⟨d, hd, s, hs, h⟩
+    cases s with
+    | assign t r => simp at h
+    | call i f p o =>
+      by_cases hp : d.isPou = true
+      · simp only [hp, if_true] at h
+        exact ⟨d, hd, hp, i, f, p, o, hs, h⟩
+      · simp [hp] at h
+  · rintro ⟨d, hd, hp, i, f, p, o, hs, h⟩
+    exact ⟨d, hd, _, hs, by simp [hp, h]⟩
+
+/-! ### constants are initialised (P0016) -/
+
+/-- a CONSTANT variable (not VAR_EXTERNAL) that is a function block instance or a structure: the rule cannot judge it -/
+def ConstOfUnjudgedType (ds : List ADecl) : Prop :=
+  ∃ d ∈ ds, ∃ v ∈ d.vars, v.const = true ∧ v.cls ≠ .external ∧ (isFbVar ds v = true ∨ isStructVar ds v = true)
+
+/-- P0016 is reported exactly when some CONSTANT variable outside VAR_EXTERNAL has no initial value — unless the unit
+holds a constant the rule cannot judge, in which case the rule reports P9999 and nothing else. -/
+theorem const_init_rule (ds : List ADecl) :
+    (P0016 ∈ (ruleConstInit ds).flatten ↔
+      ¬ ConstOfUnjudgedType ds ∧
+      ∃ d ∈ ds, ∃ v ∈ d.vars, v.const = true ∧ v.cls ≠ .external ∧ v.init = none) ∧
+    (P9999 ∈ (ruleConstInit ds).flatten ↔ ConstOfUnjudgedType ds) := by
+  have hsites : ∀ c, c ∈ (ds.flatMap fun d => d.vars.filterMap fun v =>
+        if v.const && v.cls != .external then
+          if isFbVar ds v || isStructVar ds v then some P9999
+          else if v.init.isNone then some P0016 else none
+        else none) ↔
+      ∃ d ∈ ds, ∃ v ∈ d.vars, v.const = true ∧ v.cls ≠ .external ∧
+        ((isFbVar ds v = true ∨ isStructVar ds v = true) ∧ c = P9999 ∨
+         (¬ (isFbVar ds v = true ∨ isStructVar ds v = true) ∧ v.init = none ∧ c = P0016)) := by
+    intro c
+    simp only [List.mem_flatMap, List.mem_filterMap]
+    constructor
+    · rintro ⟨d, hd, v, hv, h⟩
+      by_cases h1 : (v.const && v.cls != .external) = true
+      · simp only [h1, if_true] at h
+        simp only [Bool.and_eq_true, bne_iff_ne] at h1
+        by_cases h2 : (isFbVar ds v || isStructVar ds v) = true
+        · simp only [h2, if_true, Option.some.injEq] at h
+          simp only [Bool.or_eq_true] at h2
+          exact ⟨d, hd, v, hv, h1.1, h1.2, Or.inl ⟨h2, h.symm⟩⟩
+        · have h2' : (isFbVar ds v || isStructVar ds v) = false := by
+            cases hh : (isFbVar ds v || isStructVar ds v) with
+            | false => rfl
+            | true => exact absurd hh h2
+          simp only [h2', Bool.false_eq_true, if_false] at h
+          simp only [Bool.or_eq_true] at h2
+          by_cases h3 : v.init.isNone = true
+          · simp only [h3, if_true, Option.some.injEq] at h
+            exact ⟨d, hd, v, hv, h1.1, h1.2, Or.inr ⟨h2, Option.isNone_iff_eq_none.mp h3, h.symm⟩⟩
+          · simp [h3] at h
+      · simp [h1] at h
+    · rintro ⟨d, hd, v, hv, hc, hx, h⟩
+      refine ⟨d, hd, v, hv, ?_⟩
+      have h1 : (v.const && v.cls != .external) = true := by simp [hc, hx]
+      simp only [h1, if_true]
+      rcases h with ⟨h2, rfl⟩ | ⟨h2, h3, rfl⟩
+      · have : (isFbVar ds v || isStructVar ds v) = true := by simpa [Bool.or_eq_true] using h2
+        simp [this]
+      · have : (isFbVar ds v || isStructVar ds v) = false := by
+          cases hh : (isFbVar ds v || isStructVar ds v) with
+          | false => rfl
+          | true => exact absurd (by simpa [Bool.or_eq_true] using hh) h2
+        simp [this, h3]
+  have h9 : (ds.flatMap fun d => d.vars.filterMap fun v =>
+        if v.const && v.cls != .external then
+          if isFbVar ds v || isStructVar ds v then some P9999
+          else if v.init.isNone then some P0016 else none
+        else none).contains P9999 = true ↔ ConstOfUnjudgedType ds := by
+    rw [List.contains_iff_mem, hsites]
+    constructor
+    · rintro ⟨d, hd, v, hv, hc, hx, h⟩
+      rcases h with ⟨h2, _⟩ | ⟨_, _, h⟩
+      · exact ⟨d, hd, v, hv, hc, hx, h2⟩
+      · exact absurd h (by decide)
+    · rintro ⟨d, hd, v, hv, hc, hx, h2⟩
+      exact ⟨d, hd, v, hv, hc, hx, Or.inl ⟨h2, rfl⟩⟩
+  unfold ruleConstInit
+  simp only
+  by_cases hU : ConstOfUnjudgedType ds
+  · have := h9.mpr hU
+    simp only [this, if_true]
+    constructor
+    · constructor
+      · intro h; simp [P0016, P9999] at h
+      · intro h; exact absurd hU h.1
+    · constructor
+      · intro _; exact hU
+      · intro _; simp
+  · have : (ds.flatMap fun d => d.vars.filterMap fun v =>
+        if v.const && v.cls != .external then
+          if isFbVar ds v || isStructVar ds v then some P9999
+          else if v.init.isNone then some P0016 else none
+        else none).contains P9999 = false := by
+      cases hh : (ds.flatMap fun d => d.vars.filterMap fun v =>
+        if v.const && v.cls != .external then
+          if isFbVar ds v || isStructVar ds v then some P9999
+          else if v.init.isNone then some P0016 else none
+        else none).contains P9999 with
+      | false => rfl
+      | true => exact absurd (h9.mp hh) hU
+    simp only [this, Bool.false_eq_true, if_false, mem_grp_flatten, hsites]
+    constructor
+    · constructor
+      · rintro ⟨d, hd, v, hv, hc, hx, h⟩
+        rcases h with ⟨_, h⟩ | ⟨_, h3, _⟩
+        · exact absurd h (by decide)
+        · exact ⟨hU, d, hd, v, hv, hc, hx, h3⟩
+      · rintro ⟨_, d, hd, v, hv, hc, hx, h3⟩
+        refine ⟨d, hd, v, hv, hc, hx, Or.inr ⟨?_, h3, trivial⟩⟩
+        intro h2
+        exact hU ⟨d, hd, v, hv, hc, hx, h2⟩
+    · constructor
+      · rintro ⟨d, hd, v, hv, hc, hx, h⟩
+        rcases h with ⟨h2, _⟩ | ⟨_, _, h⟩
+        · exact absurd ⟨d, hd, v, hv, hc, hx, h2⟩ hU
+        · exact absurd h (by decide)
+      · intro h; exact absurd h hU
+
+/-! ### enumeration values are values of their type (P0012, P0014) -/
+
+/-- a site the rule looks at: an enumeration-typed variable, or a structure element with an initial value, of the
+type named `t`; `x` is the initial value, if any -/
+def EnumSite (ds : List ADecl) (t : Nat) (x : Option Nat) : Prop :=
+  (∃ d ∈ ds, ∃ v ∈ d.vars, v.ty = .named t ∧ isEnumVar ds v = true ∧ v.init = x) ∨
+  (∃ n es, ADecl.structT n es ∈ ds ∧ ∃ e ∈ es, e.2.1 = .named t ∧ e.2.2 = x ∧ x.isSome = true)
+
+/-- P0012 is reported exactly when the type of some site is not an enumeration the unit declares (directly or through
+aliases); P0014 exactly when some site's initial value is not among the values of its enumeration. -/
+theorem enum_use_rule (ds : List ADecl) :
+    (P0012 ∈ (ruleEnumUse ds).flatten ↔ ∃ t x, EnumSite ds t x ∧ enumValues ds (ds.length + 1) t = none) ∧
+    (P0014 ∈ (ruleEnumUse ds).flatten ↔
+      ∃ t x vs, EnumSite ds t (some x) ∧ enumValues ds (ds.length + 1) t = some vs ∧ x ∉ vs) := by
+  have hvar : ∀ (c : Nat) (d : ADecl), c ∈ (d.vars.filterMap fun v =>
+      match v.ty with
+      | .named t =>
+        if isEnumVar ds v then
+          match enumValues ds (ds.length + 1) t with
+          | none => some P0012
+          | some vs => (match v.init with
+              | some x => if vs.contains x then none else some P0014
+              | none => none)
+        else none
+      | _ => none) ↔
+      ∃ v ∈ d.vars, ∃ t, v.ty = .named t ∧ isEnumVar ds v = true ∧
+        ((enumValues ds (ds.length + 1) t = none ∧ c = P0012) ∨
+         (∃ vs x, enumValues ds (ds.length + 1) t = some vs ∧ v.init = some x ∧ x ∉ vs ∧ c = P0014)) := by
+    intro c d
+    simp only [List.mem_filterMap]
+    constructor
+    · rintro ⟨v, hv, h⟩
+      cases hty : v.ty with
+      | named t =>
+        simp only [hty] at h
+        by_cases he : isEnumVar ds v = true
+        · simp only [he, if_true] at h
+          cases hev : enumValues ds (ds.length + 1) t with
+          | none =>
+            simp only [hev, Option.some.injEq] at h
+            exact ⟨v, hv, t, hty, he, Or.inl ⟨hev, h.symm⟩⟩
+          | some vs =>
+            simp only [hev] at h
+            cases hi : v.init with
+            | none => simp [hi] at h
+            | some x =>
+              simp only [hi] at h
+              by_cases hm : x ∈ vs
+              · simp [hm] at h
+              · simp only [List.contains_iff_mem, hm, if_false, Option.some.injEq] at h
+                exact ⟨v, hv, t, hty, he, Or.inr ⟨vs, x, hev, hi, hm, h.symm⟩⟩
+        · simp [he] at h
+      | bool => simp [hty] at h
+      | int => simp [hty] at h
+      | str => simp [hty] at h
+    · rintro ⟨v, hv, t, hty, he, h⟩
+      refine ⟨v, hv, ?_⟩
+      simp only [hty, he, if_true]
+      rcases h with ⟨hev, rfl⟩ | ⟨vs, x, hev, hi, hx, rfl⟩
+      · simp [hev]
+      · simp [hev, hi, hx]
+  have hstruct : ∀ (c : Nat) (d : ADecl), c ∈ (match d with
+        | .structT _ es => es.filterMap fun (e : Nat × Ty × Option Nat) =>
+            match e.2.1, e.2.2 with
+            | Ty.named t, some x =>
+              (match enumValues ds (ds.length + 1) t with
+                | none => some P0012
+                | some vs => if vs.contains x then none else some P0014)
+            | _, _ => none
+        | _ => []) ↔
+      ∃ n es, d = .structT n es ∧ ∃ e ∈ es, ∃ t x, e.2.1 = .named t ∧ e.2.2 = some x ∧
+        ((enumValues ds (ds.length + 1) t = none ∧ c = P0012) ∨
+         (∃ vs, enumValues ds (ds.length + 1) t = some vs ∧ x ∉ vs ∧ c = P0014)) := by
+    intro c d
+    cases d with
+    | structT n es =>
+      simp only [List.mem_filterMap]
+      constructor
+      · rintro ⟨e, he, h⟩
+        cases hty : e.2.1 with
+        | named t =>
+          cases hx : e.2.2 with
+          | none => simp [hty, hx] at h
+          | some x =>
+            simp only [hty, hx] at h
+            cases hev : enumValues ds (ds.length + 1) t with
+            | none =>
+              simp only [hev, Option.some.injEq] at h
+              exact ⟨n, es, rfl, e, he, t, x, hty, hx, Or.inl ⟨hev, h.symm⟩⟩
+            | some vs =>
+              simp only [hev] at h
+              by_cases hm : x ∈ vs
+              · simp [hm] at h
+              · simp only [List.contains_iff_mem, hm, if_false, Option.some.injEq] at h
+                exact ⟨n, es, rfl, e, he, t, x, hty, hx, Or.inr ⟨vs, hev, hm, h.symm⟩⟩
+        | bool => simp [hty] at h
+        | int => simp [hty] at h
+        | str => simp [hty] at h
+      · rintro ⟨n', es', heq, e, he, t, x, hty, hx, h⟩
+        cases heq
+        refine ⟨e, he, ?_⟩
+        simp only [hty, hx]
+        rcases h with ⟨hev, rfl⟩ | ⟨vs, hev, hxv, rfl⟩
+        · simp [hev]
+        · simp [hev, hxv]
+    | _ => simp
+  have hmem : ∀ c, c ∈ (ruleEnumUse ds).flatten ↔
+      ∃ d ∈ ds,
+        (∃ v ∈ d.vars, ∃ t, v.ty = .named t ∧ isEnumVar ds v = true ∧
+          ((enumValues ds (ds.length + 1) t = none ∧ c = P0012) ∨
+           (∃ vs x, enumValues ds (ds.length + 1) t = some vs ∧ v.init = some x ∧ x ∉ vs ∧ c = P0014))) ∨
+        (∃ n es, d = .structT n es ∧ ∃ e ∈ es, ∃ t x, e.2.1 = .named t ∧ e.2.2 = some x ∧
+          ((enumValues ds (ds.length + 1) t = none ∧ c = P0012) ∨
+           (∃ vs, enumValues ds (ds.length + 1) t = some vs ∧ x ∉ vs ∧ c = P0014))) := by
+    intro c
+    simp only [ruleEnumUse, mem_grp_flatten, List.mem_flatMap, List.mem_append]
+    constructor
+    · rintro ⟨d, hd, h | h⟩
+      · exact ⟨d, hd, Or.inl ((hvar c d).mp h)⟩
+      · exact ⟨d, hd, Or.inr ((hstruct c d).mp h)⟩
+    · rintro ⟨d, hd, h | h⟩
+      · exact ⟨d, hd, Or.inl ((hvar c d).mpr h)⟩
+      · exact ⟨d, hd, Or.inr ((hstruct c d).mpr h)⟩
+  have h1214 : P0012 ≠ P0014 := by decide
+  constructor
+  · rw [hmem]
+    constructor
+    · rintro ⟨d, hd, h | h⟩
+      · obtain ⟨v, hv, t, hty, he, h⟩ := h
+        rcases h with ⟨hev, _⟩ | ⟨_, _, _, _, _, h⟩
+        · exact ⟨t, v.init, Or.inl ⟨d, hd, v, hv, hty, he, rfl⟩, hev⟩
+        · exact absurd h h1214
+      · obtain ⟨n, es, rfl, e, he, t, x, hty, hx, h⟩ := h
+        rcases h with ⟨hev, _⟩ | ⟨_, _, _, h⟩
+        · exact ⟨t, some x, Or.inr ⟨n, es, hd, e, he, hty, hx, rfl⟩, hev⟩
+        · exact absurd h h1214
+    · rintro ⟨t, x, hs, hev⟩
+      rcases hs with ⟨d, hd, v, hv, hty, he, _⟩ | ⟨n, es, hd, e, he, hty, hx, hsome⟩
+      · exact ⟨d, hd, Or.inl ⟨v, hv, t, hty, he, Or.inl ⟨hev, rfl⟩⟩⟩
+      · obtain ⟨y, rfl⟩ := Option.isSome_iff_exists.mp hsome
+        exact ⟨_, hd, Or.inr ⟨n, es, rfl, e, he, t, y, hty, hx, Or.inl ⟨hev, rfl⟩⟩⟩
+  · rw [hmem]
+    constructor
+    · rintro ⟨d, hd, h | h⟩
+      · obtain ⟨v, hv, t, hty, he, h⟩ := h
+        rcases h with ⟨_, h⟩ | ⟨vs, x, hev, hi, hx, _⟩
+        · exact absurd h.symm h1214
+        · exact ⟨t, x, vs, Or.inl ⟨d, hd, v, hv, hty, he, hi⟩, hev, hx⟩
+      · obtain ⟨n, es, rfl, e, he, t, x, hty, hx, h⟩ := h
+        rcases h with ⟨_, h⟩ | ⟨vs, hev, hxv, _⟩
+        · exact absurd h.symm h1214
+        · exact ⟨t, x, vs, Or.inr ⟨n, es, hd, e, he, hty, hx, rfl⟩, hev, hxv⟩
+    · rintro ⟨t, x, vs, hs, hev, hxv⟩
+      rcases hs with ⟨d, hd, v, hv, hty, he, hi⟩ | ⟨n, es, hd, e, he, hty, hx, _⟩
+      · exact ⟨d, hd, Or.inl ⟨v, hv, t, hty, he, Or.inr ⟨vs, x, hev, hi, hxv, rfl⟩⟩⟩
+      · exact ⟨_, hd, Or.inr ⟨n, es, rfl, e, he, t, x, hty, hx, Or.inr ⟨vs, hev, hxv, rfl⟩⟩⟩
+
+/-- non-vacuity: `inst(nosuch := 0)` on an instance of a block with one input resolves and is a P0007 site; the same
+call with an undeclared instance is a P0021 site -/
+example :
+    let ds : List ADecl := [.fb 1 [⟨10, .input, false, .int, none⟩] [],
+      .prog 2 [⟨20, .var, false, .named 1, none⟩] [.call 20 [(11, 0)] [] [], .call 21 [] [] []]]
+    ruleFbCall ds = [[P0007, P0021]] ∧ BadFormal (.fb 1 [⟨10, .input, false, .int, none⟩] []) [(11, 0)] := by
+  refine ⟨by decide, (11, 0), List.mem_cons_self .., ?_⟩
+  rintro ⟨x, hx, _, hn⟩
+  simp only [ADecl.vars, List.mem_singleton] at hx
+  subst hx
+  cases hn
+
+/-- non-vacuity: a CONSTANT without initial value is a P0016 site; an enumeration variable initialised with a value
+that is not in its type is a P0014 site -/
+example :
+    ruleConstInit [.prog 2 [⟨20, .var, true, .int, none⟩] []] = [[P0016]] ∧
+    ruleEnumUse [.enumT 5 [100, 101] none, .prog 2 [⟨20, .var, false, .named 5, some 102⟩] []] = [[P0014]] := by decide
 
 /-- Pipeline, direction "accepted ⇒ satisfies": when the analysis succeeds, no stage objected and
 every rule is silent. -/
